@@ -877,6 +877,40 @@ def module_state(fname, tree):
     return sorted(out, key=lambda r: (r["file"], r["line"], r["name"]))
 
 
+# ---------------------------------------------------------------------- ambient inputs
+# builtins whose result depends on the process (hash seed, addresses, environment, files, the user)
+AMBIENT_BUILTINS = {"hash", "id", "open", "input", "__import__", "eval", "exec", "compile", "globals", "locals", "vars", "dir",
+                    "breakpoint", "object"}
+
+
+def ambient(fname, tree):
+    """-> (imports, calls): every module imported anywhere in the file (module-level or inside a function) and every call
+    of a builtin whose result is not a function of its arguments.  `object` is listed because `object()` has an
+    address-dependent repr/hash; `compile` here is the builtin, `re.compile` is an attribute call and not listed."""
+    imports, calls = [], []
+    owner = {}
+    for fn in ast.walk(tree):
+        if isinstance(fn, (ast.FunctionDef, ast.AsyncFunctionDef)):
+            for n in ast.walk(fn):
+                if isinstance(n, (ast.Import, ast.ImportFrom)):
+                    owner.setdefault(n, fn.name)      # outermost function first (ast.walk is breadth-first)
+    for n in ast.walk(tree):
+        if isinstance(n, ast.Import):
+            for al in n.names:
+                imports.append({"file": fname, "module": al.name, "fn": owner.get(n, "<module>"), "line": n.lineno})
+        elif isinstance(n, ast.ImportFrom):
+            imports.append({"file": fname, "module": "." * (n.level or 0) + (n.module or ""), "fn": owner.get(n, "<module>"), "line": n.lineno})
+        elif isinstance(n, ast.Call) and isinstance(n.func, ast.Name) and n.func.id in AMBIENT_BUILTINS:
+            calls.append({"file": fname, "fn": n.func.id, "line": n.lineno})
+        elif isinstance(n, ast.Name) and isinstance(n.ctx, ast.Load) and n.id in ("hash", "id"):
+            # also when passed as a function value: sorted(x, key=hash), map(id, x)
+            if not any(c["line"] == n.lineno and c["fn"] == n.id for c in calls):
+                calls.append({"file": fname, "fn": n.id, "line": n.lineno})
+    calls.sort(key=lambda c: (c["file"], c["line"], c["fn"]))
+    imports.sort(key=lambda c: (c["file"], c["line"], c["module"]))
+    return imports, calls
+
+
 # ---------------------------------------------------------------------- entry point
 def analyse(src_dir: Path, die):
     trees = {}
@@ -892,6 +926,12 @@ def analyse(src_dir: Path, die):
     keys = key_table([trees[f] for f in FILES])
     rets = func_returns([trees[f] for f in FILES])
     sites, state = [], []
+    imports, calls = [], []
+    for f in FILES + ["ast.py"]:
+        i_, c_ = ambient(f, trees[f])
+        imports += i_
+        calls += c_
+    analyse.ambient = (imports, calls)
     for f in FILES:
         an = Analyzer(f, trees[f], attr, keys, rets, die)
         an.build_scopes()
@@ -926,6 +966,14 @@ def generate(api):
         items.append(f"mk_mstate {api.ctext(r['file'])} {api.ctext(r['name'])} {r['line']} {'true' if r['mutated'] else 'false'}"
                      f"\n    (* {r['file']}:{r['line']} {r['name']} [{r['vclass']}] {r['how']} *)")
     out.append("Definition module_state : list mstate := " + api.clist(items) + ".\n")
+    imports, calls = analyse.ambient
+    out.append("\n(* Ambient inputs: every module imported by the three transpiler files (anywhere), and every use of a builtin whose\n"
+               "   result is not a function of its arguments (hash, id, open, input, eval, ...). *)\n")
+    out.append("Record imp := mk_imp { i_file : text; i_module : text; i_fn : text; i_line : Z }.\n\n")
+    out.append("Definition imports : list imp := " + api.clist(
+        [f"mk_imp {api.ctext(i['file'])} {api.ctext(i['module'])} {api.ctext(i['fn'])} {i['line']}\n    (* {i['file']}:{i['line']} import {i['module']} in {i['fn']} *)" for i in imports]) + ".\n\n")
+    out.append("Definition ambient_calls : list (text * text * Z) := " + api.clist(
+        [f"({api.ctext(c['file'])}, {api.ctext(c['fn'])}, {c['line']})\n    (* {c['file']}:{c['line']} {c['fn']} *)" for c in calls]) + ".\n")
     api.write_if_changed(api.GEN / "SetSites.v", "".join(out))
 
 
